@@ -55,6 +55,31 @@ class Box:
     sigs.LOG.append(('Box', None))
 
 
+class Seq:
+  """A user class that happens to be sized, iterable and a container (structurally a collections.abc.Collection)."""
+
+  def __init__(self, *items):
+    self.items = list(items)
+    sigs.LOG.append(('Seq', None))
+
+  def __len__(self):
+    return len(self.items)
+
+  def __iter__(self):
+    return iter(self.items)
+
+  def __contains__(self, x):
+    return x in self.items
+
+
+class LS(list):
+  """A list subclass with its own constructor."""
+
+  def __init__(self, items=()):
+    super().__init__(items)
+    sigs.LOG.append(('LS', None))
+
+
 def mk(v, w=0):
   sigs.LOG.append(('mk', None))
   return Pair(v, w)
@@ -76,7 +101,7 @@ import functools
 from fiddle import arg_factory
 from fiddle._src.experimental import auto_config as ac
 from fiddle._src.experimental.with_tags import with_tags
-from harness.c11 import Leaf, Pair, Box, mk, helper, T0
+from harness.c11 import Leaf, Pair, Box, Seq, LS, mk, helper, T0
 '''
 
 # (name, decorator options, body lines).  Parameters are always (p, q=5, flag=False).
@@ -111,6 +136,8 @@ BODIES = [
     ('list_comp', 'experimental_allow_control_flow=True', ['xs = [Leaf(i + p) for i in range(3)]', 'return Box(*xs, first=xs[0])']),
     ('dict_comp', 'experimental_allow_control_flow=True', ["return Box(**{f'k{i}': Leaf(q) for i in range(2)})"]),
     ('default_used', '', ['return Pair(Leaf(q), q)']),
+    ('collection_like_class', '', ['return Pair(Seq(Leaf(p), Leaf(q)), Seq())']),
+    ('list_subclass', '', ['return Pair(LS([Leaf(p), q]), q)']),
 ]
 
 
@@ -168,6 +195,31 @@ def _source():
             '  return prog, plain',
             'prog_closure_object, prog_closure_object__plain = make_closure2(9)',
             '',
+            '# closures next to attribute handlers: lower-case free variables, an attribute load in argument position and',
+            '# an attribute store (two more handler cells besides the call handler)',
+            'import types as _types',
+            'def make_closure3(acts, layer_cls, zz):',
+            '  @ac.auto_config',
+            '  def prog(p, q=5, flag=False):',
+            '    acts.tmp = q + acts.relu',
+            '    x = layer_cls(Leaf(p), acts.relu, c=[zz, acts.gelu, acts.tmp])',
+            '    return Box(x, acts.gelu, k=x)',
+            '  def plain(p, q=5, flag=False):',
+            '    acts.tmp = q + acts.relu',
+            '    x = layer_cls(Leaf(p), acts.relu, c=[zz, acts.gelu, acts.tmp])',
+            '    return Box(x, acts.gelu, k=x)',
+            '  return prog, plain',
+            'prog_closure_attrs, prog_closure_attrs__plain = make_closure3(_types.SimpleNamespace(relu=3, gelu="g"), Pair, (1, 2))',
+            '',
+            'def make_closure4(acts):',
+            '  @ac.auto_config',
+            '  def prog(p, q=5, flag=False):',
+            '    return Pair(Leaf(p), acts.relu, c=acts)',
+            '  def plain(p, q=5, flag=False):',
+            '    return Pair(Leaf(p), acts.relu, c=acts)',
+            '  return prog, plain',
+            'prog_closure_attr_load, prog_closure_attr_load__plain = make_closure4(_types.SimpleNamespace(relu=3))',
+            '',
             'class Holder:',
             '  @ac.auto_config',
             '  @staticmethod',
@@ -206,7 +258,8 @@ def _load():
 
 
 GEN = _load()
-PROGRAMS = [n for n, _, _ in BODIES] + ['closure', 'closure_object', 'staticmethod', 'classmethod']
+PROGRAMS = [n for n, _, _ in BODIES] + ['closure', 'closure_object', 'staticmethod', 'classmethod', 'closure_attrs',
+                                         'closure_attr_load']
 
 
 SINGLE_CALL = {'inlined_partial'}
@@ -222,7 +275,7 @@ def _obs(x, memo):
     memo[id(x)] = (x, out)
     out.extend([_obs(x(), memo) for _ in range(_CALLS[0])])
     return out
-  if isinstance(x, (Leaf, Pair, Box)):
+  if isinstance(x, (Leaf, Pair, Box, Seq)):
     out = [type(x).__name__]
     memo[id(x)] = (x, out)
     for k in sorted(vars(x)):
